@@ -166,7 +166,7 @@ def worlds(draw, ninst=3, hostile_names=True):
             if not (d == 3 and "required" in sib):
                 obj.update(sib)
                 classes.append("sibling-ignored")
-        if draw(st.integers(0, 14)) == 0:
+        if draw(st.integers(0, 49)) == 0:
             # an id written next to $ref is a sibling like any other: ignored (drafts <= 7)
             obj[idkw] = draw(st.sampled_from(["http://ex.test/elsewhere/", "zzz/", "http://other.test/e.json"]))
             classes.append("id-sibling-of-ref")
@@ -487,3 +487,14 @@ def static_unresolvable(case, resolver=None):
         if case["via"].get(u) != "missing":
             go(dd, u, 0)
     return bad
+
+
+def known_finding_class(case):
+    """Worlds that carry the syntactic mark of an open known finding of C02 (exotic URI scheme, id next to
+    $ref).  C02 judges them (and reports KNOWN-FINDING); the other world-based checks leave them out."""
+    from .. import known
+    if known.neutralise_exotic_scheme(case)[1]:
+        return "C02-known-finding:exotic-scheme"
+    if known.neutralise_id_sibling(case)[1]:
+        return "C02-known-finding:id-sibling-of-ref"
+    return None
